@@ -123,8 +123,21 @@ static void gen_case(long it)
                         if ((int)(rnd() % 100) < rate) p[j] = rnd() % sig;                /* substitution */
                         j++; i++;
                 }
-        } else if (kind < 7) {
+        } else if (kind < 6) {
                 for (int i = 0; i < m; i++) p[i] = rnd() % sig;
+        } else if (kind < 7) {
+                if (rnd() & 1) {
+                        /* block-composed pattern: consecutive segments over disjoint letter subsets (a letter of one 64-symbol word does not
+                           occur in the following words: long carry chains in the multi-word adders) */
+                        int seg = 16 + rnd() % 120;
+                        for (int i = 0; i < m; i++) { int base = ((i / seg) * 2) % (sig > 1 ? sig : 1); p[i] = (uint8_t)((base + (rnd() % 2)) % sig); }
+                        for (int i = 0; i < n; i++) if (rnd() % 4) t[i] = p[rnd() % m];
+                } else {
+                        /* the best match of the pattern (its first 1024 symbols) lies at the very end of the text */
+                        for (int i = 0; i < m; i++) p[i] = rnd() % sig;
+                        int mm = m > 1024 ? 1024 : m;
+                        if (n >= mm) for (int i = 0; i < mm; i++) { t[n - mm + i] = p[i]; if (rnd() % 50 == 0) t[n - mm + i] = rnd() % sig; }
+                }
         } else {
                 /* low complexity: repeats */
                 int per = 1 + rnd() % 4;
